@@ -672,17 +672,28 @@ func (l *Ledger) executeHeld(res *BlockResult, h uint32, rates map[int]uint64) {
 	}
 	avgs := l.averagesAt(lr)
 	var keep []heldBatch
-	type pegGroup struct {
-		height uint32
-		reqs   []pegReq
-	}
 	var pooled []pegReq
-	groups := map[uint32][]pegReq{}
-	var order []uint32
+	// Before the V4 update every held height is its own round with its own
+	// bank: the requests of height i are paid (and refunded) before the batches
+	// held at height i+1 are looked at, so a refund can fund a later batch of
+	// the same block.
+	perHeight := h >= l.act("ConvLimit") && h < l.act("V4")
+	var group []pegReq
+	groupHeight := uint32(0)
+	flush := func() {
+		if perHeight && groupHeight != 0 {
+			l.payPegRequests(res, h, rates, group, LegacyBank)
+		}
+		group = nil
+	}
 	for _, hb := range l.held {
 		if hb.height < lr || hb.height >= h {
 			keep = append(keep, hb)
 			continue
+		}
+		if hb.height != groupHeight {
+			flush()
+			groupHeight = hb.height
 		}
 		te := hb.entry
 		f := l.fate(te, hb.height)
@@ -708,24 +719,17 @@ func (l *Ledger) executeHeld(res *BlockResult, h uint32, rates map[int]uint64) {
 				if !okc {
 					want = 0
 				}
-				r := pegReq{te: te, idx: i, part: p, want: want, dropped: code == 0}
-				if h < l.act("V4") {
-					if _, ok := groups[hb.height]; !ok {
-						order = append(order, hb.height)
-					}
-					groups[hb.height] = append(groups[hb.height], r)
+				r := pegReq{te: te, idx: i, part: p, want: want}
+				if perHeight {
+					group = append(group, r)
 				} else {
 					pooled = append(pooled, r)
 				}
 			}
 		}
 	}
+	flush()
 	l.held = keep
-	if h >= l.act("ConvLimit") && h < l.act("V4") {
-		for _, gh := range order {
-			l.payPegRequests(res, h, rates, groups[gh], LegacyBank)
-		}
-	}
 	if h >= l.act("V4") && h < l.act("V20") {
 		used, asked := l.payPegRequests(res, h, rates, pooled, LegacyBank)
 		res.Bank = &[3]int64{LegacyBank, int64(used), int64(asked)}
